@@ -56,6 +56,11 @@ func genBase(r *Rng, prop string) *Scenario {
 	case "C07":
 		return genC07(r)
 	case "C11", "C16":
+		if prop == "C11" && r.matrixCell < 0 && r.chance(0.12) {
+			// chains of ErrorWithRetry handles, each used with a context of its own
+			// on a fresh (or the same) client and interrupted in its turn
+			return genC12Base(r)
+		}
 		if prop == "C16" && r.chance(0.2) {
 			// connections ended by the reader's own failures (an acknowledgement
 			// that cannot be written) rather than by the network
@@ -232,6 +237,15 @@ func genC06(r *Rng) *Scenario {
 		t += 5
 	}
 	t += cfg.LatC2BUs + 20
+	// ... or a Ping given up by its caller before any answer can arrive; the
+	// answer (and one more PINGRESP for good measure) comes later, when nobody
+	// waits for one any more
+	strayPings := 0
+	if nblocked == 0 && subN == 0 && r.chance(0.12) {
+		sc.Ops = append(sc.Ops, Op{AtUs: t, Actor: 6, Kind: "ping", CtxTimeoutUs: r.between(1, 15)})
+		strayPings = int(r.between(1, 2))
+		t += 30
+	}
 	npre := int(r.between(0, 6))
 	rel := 0
 	var lateRel []uint16
@@ -259,6 +273,11 @@ func genC06(r *Rng) *Scenario {
 			}
 			t += r.between(1, 200)
 			sc.Script = append(sc.Script, Out{Conn: 1, AtUs: t, Kind: "pkt", Pkt: &Pkt{Type: TPubRel, ID: p.ID}, Class: "wellformed-q2"})
+			if r.chance(0.3) {
+				// the broker repeats its PUBREL (it has not seen the PUBCOMP yet)
+				t += r.between(1, 100)
+				sc.Script = append(sc.Script, Out{Conn: 1, AtUs: t, Kind: "pkt", Pkt: &Pkt{Type: TPubRel, ID: p.ID}, Class: "wellformed-q2"})
+			}
 			continue
 		}
 		sc.Script = append(sc.Script, Out{Conn: 1, AtUs: t, Kind: "pkt", Pkt: p, Class: "wellformed"})
@@ -266,6 +285,14 @@ func genC06(r *Rng) *Scenario {
 	for _, id := range lateRel {
 		t += r.between(1, 200)
 		sc.Script = append(sc.Script, Out{Conn: 1, AtUs: t, Kind: "pkt", Pkt: &Pkt{Type: TPubRel, ID: id}, Class: "wellformed-q2"})
+		if r.chance(0.3) {
+			t += r.between(1, 100)
+			sc.Script = append(sc.Script, Out{Conn: 1, AtUs: t, Kind: "pkt", Pkt: &Pkt{Type: TPubRel, ID: id}, Class: "wellformed-q2"})
+		}
+	}
+	for i := 0; i < strayPings; i++ {
+		t += r.between(1, 200)
+		sc.Script = append(sc.Script, Out{Conn: 1, AtUs: t, Kind: "pkt", Pkt: &Pkt{Type: TPingResp}, Class: "wellformed"})
 	}
 	t += r.between(1, 300)
 	o := Out{Conn: 1, AtUs: t, Kind: "raw"}
@@ -512,9 +539,92 @@ func genC07Early(r *Rng) *Scenario {
 	return sc
 }
 
+// genC07Stale: acknowledgements that arrive before the request they would
+// belong to exists. After a first wave of requests has been answered (so that
+// whatever the client keeps per kind of request exists), the broker sends
+// acknowledgements carrying the identifiers the NEXT requests will get; those
+// requests are then made and answered late. Nothing the broker said earlier
+// may complete them.
+func genC07Stale(r *Rng) *Scenario {
+	sc := &Scenario{Cfg: baseCfg(r)}
+	cfg := &sc.Cfg
+	cfg.HoldAcks = true
+	sc.Ops = append(sc.Ops, Op{AtUs: 0, Actor: 0, Kind: "connect"})
+	t := rtt(cfg) + 10
+	cur := cfg.InitIDs[0]
+	actor := 1
+	held := 0
+	mk := func(i int, wave string) Op {
+		op := Op{AtUs: t, Actor: actor}
+		actor++
+		switch r.IntN(3) {
+		case 0:
+			op.Kind, op.QoS, op.Topic, op.Token = "publish", 1, "a", fmt.Sprintf("%s%d", wave, i)
+		case 1:
+			op.Kind, op.Subs = "subscribe", []SubReq{{filters[i%len(filters)], byte(r.IntN(3))}}
+		default:
+			op.Kind, op.Topics = "unsubscribe", []string{filters[i%len(filters)]}
+		}
+		return op
+	}
+	n1 := int(r.between(1, 3))
+	for i := 0; i < n1; i++ {
+		t += r.between(1, 50)
+		sc.Ops = append(sc.Ops, mk(i, "m"))
+		cur, _ = nextID(cur)
+	}
+	t += cfg.LatC2BUs + 50
+	for i := 0; i < n1; i++ {
+		t += r.between(1, 50)
+		sc.Script = append(sc.Script, Out{Conn: 1, AtUs: t, Kind: "release", Held: held})
+		held++
+	}
+	t += cfg.LatB2CUs + 100
+	n2 := int(r.between(1, 3))
+	c2 := cur
+	for i := 0; i < n2; i++ {
+		var id uint16
+		c2, id = nextID(c2)
+		for j := 0; j < int(r.between(1, 2)); j++ {
+			p := &Pkt{ID: id}
+			switch r.IntN(5) {
+			case 0:
+				p.Type = TPubAck
+			case 1:
+				p.Type = TPubRec
+			case 2:
+				p.Type = TPubComp
+			case 3:
+				p.Type, p.Codes = TSubAck, []byte{byte(r.IntN(3))}
+			default:
+				p.Type = TUnsubAck
+			}
+			t += r.between(1, 40)
+			sc.Script = append(sc.Script, Out{Conn: 1, AtUs: t, Kind: "pkt", Pkt: p, Class: "forged"})
+		}
+	}
+	t += cfg.LatB2CUs + 100
+	for i := 0; i < n2; i++ {
+		t += r.between(1, 50)
+		sc.Ops = append(sc.Ops, mk(i, "w"))
+	}
+	t += cfg.LatC2BUs + r.between(500, 2000)
+	for i := 0; i < n2; i++ {
+		t += r.between(1, 50)
+		sc.Script = append(sc.Script, Out{Conn: 1, AtUs: t, Kind: "release", Held: held})
+		held++
+	}
+	sc.HorizonUs = t + 5000
+	sc.EndUs = sc.HorizonUs + 2000
+	return sc
+}
+
 func genC07(r *Rng) *Scenario {
 	if r.chance(0.12) {
 		return genC07Early(r)
+	}
+	if r.chance(0.08) {
+		return genC07Stale(r)
 	}
 	sc := &Scenario{Cfg: baseCfg(r)}
 	cfg := &sc.Cfg
@@ -724,6 +834,10 @@ func C11Matrix() []c11Cell {
 	// Connect called with a context that has already ended, then a local Close:
 	// the connection object ends like any other (Done() closed, nothing left)
 	cells = append(cells, c11Cell{"connect", "before+close", "cancel"})
+	// Disconnect on a client whose Connect did not succeed (refused by a peer
+	// that keeps the connection open; no CONNACK before the deadline), then the
+	// peer closes: the connection ends as a disconnected one
+	cells = append(cells, c11Cell{"disconnect", "after-failed-connect", "refused"}, c11Cell{"disconnect", "after-failed-connect", "deadline"})
 	cells = append(cells, c11Cell{"connect", "after-disconnect", "none"})
 	cells = append(cells, c11Cell{"disconnect", "during-close", "peereof"}, c11Cell{"publish1", "during-close", "peereof"})
 	// Connect / Disconnect of the reconnecting client
@@ -919,6 +1033,19 @@ func genC11Cell(r *Rng, cell c11Cell) *Scenario {
 			applyCause(sc, cell.cause, 1000, 0, r)
 		}
 		sc.HorizonUs, sc.EndUs = 6000, 8000
+		return sc
+	}
+	if cell.step == "after-failed-connect" {
+		sc.Ops = append(sc.Ops, Op{AtUs: 0, Actor: 0, Kind: "connect"})
+		if cell.cause == "refused" {
+			sc.Faults = append(sc.Faults, Fault{Kind: "connackRefuse", Conn: 1, Code: byte(r.between(1, 5)), Prefix: 1})
+		} else {
+			sc.Faults = append(sc.Faults, Fault{Kind: "connackNever", Conn: 1})
+			sc.Ops[0].CtxTimeoutUs = 600
+		}
+		sc.Ops = append(sc.Ops, Op{AtUs: 2000, Actor: 1, Kind: "disconnect", Cli: 0})
+		sc.Faults = append(sc.Faults, Fault{Kind: "cutAt", Conn: 1, AtUs: 4000})
+		sc.HorizonUs, sc.EndUs = 8000, 10000
 		return sc
 	}
 	sc.Ops = append(sc.Ops, Op{AtUs: 0, Actor: 0, Kind: "connect"})
